@@ -40,6 +40,8 @@ RULE = ("decoder-accepted encodings: every (prefix|none, opcode) pair x second b
 
 REG_FIELDS = ("BA", "I", "X", "Y", "U", "S", "PC")
 POINTER_NAMES = ("BP", "PX", "PY")
+REG_CLASS = {"A": "r1", "B": "r1", "IL": "r1", "IH": "r1", "F": "r1", "IMR": "r1",
+             "BA": "r2", "I": "r2", "X": "r3", "Y": "r3", "U": "r3", "S": "r3"}
 # bytes worth hitting as operand values: boundaries + addresses that have IMEMRegisters names
 INTERESTING = (0x00, 0x01, 0x02, 0x0F, 0x10, 0x7F, 0x80, 0x81, 0xFE, 0xFF,
                0xD4, 0xD5, 0xDA, 0xDD, 0xDF, 0xE6, 0xE8, 0xEC, 0xED, 0xEE, 0xEF, 0xF0, 0xF1, 0xF2, 0xF5, 0xF7,
@@ -68,7 +70,7 @@ def mk_text(toks: Sequence[TP.Tok]) -> str:
 
 
 def op_sig(op: Sequence[TP.Tok]) -> str:
-    """'(BP+n)', '(nm)', '[r++]', '[(PX+n)-n]', 'r', 'n', '+n', '[lmn]' ..."""
+    """'(BP+n)', '(nm)', '[r3++]', '[(PX+n)-n]', 'r1', 'n', '+n', '[lmn]' ... (r1/r2/r3 = register width)"""
     out: List[str] = []
     op = list(op)
     for i, (k, t) in enumerate(op):
@@ -77,7 +79,7 @@ def op_sig(op: Sequence[TP.Tok]) -> str:
         elif k == "Addr":
             out.append("lmn")
         elif k == "Reg":
-            out.append("r")
+            out.append(REG_CLASS.get(t, "r"))
         elif k == "Text":
             if t in ("++", "--"):
                 out.append(t)
@@ -423,7 +425,8 @@ def verdict(code: bytes, state: Optional[Dict[str, Any]], recheck: bool = False,
                     labels.append("behaviour:compared")
                     diffs, details = compare_behaviour(sa, sb, state)
                     if diffs:
-                        out.append(Violation("behaviour", where, "differs: " + ",".join(diffs), saved,
+                        opc = code[1] if code[0] in G.PRE_OPCODES else code[0]
+                        out.append(Violation("behaviour", f"{where} [opcode {opc:02X}]", "differs: " + ",".join(diffs), saved,
                                              f"{code.hex()} vs {b1.hex()} ('{text}'): " + "; ".join(details)))
     if not out:
         labels.append("result:ok")
@@ -482,16 +485,15 @@ def groups(seed: int, tier: str) -> List[Tuple[int, int, bytes]]:
     return out
 
 
-def _shard(task: Tuple[int, int, int, str]) -> Report:
-    shard, nshards, seed, tier = task
+def _shard(task: Tuple[int, int, int, str, float]) -> Report:
+    shard, nshards, seed, tier, deadline = task
     rep = Report()
-    t0 = time.time()
     gs = groups(seed, tier)
     for gi, (op, b2, tail) in enumerate(gs):
         if gi % nshards != shard:
             continue
-        if time.time() - t0 > TIME_BUDGET[tier]:
-            rep.inconclusive.append(f"time budget reached in shard {shard}; remaining groups not explored")
+        if time.time() > deadline:
+            rep.inconclusive.append("time budget reached; some groups not explored (not a violation)")
             break
         for pi, pre in enumerate(G.PRES):
             data = G.head_bytes(pre, op, b2) + tail
@@ -544,7 +546,8 @@ ASSUMPTIONS = [
 def run(ctx: Ctx) -> Report:
     b2_table()  # computed once before forking
     nshards = 16 if ctx.quick else 64
-    reports = ctx.pmap(_shard, [(i, nshards, ctx.seed, ctx.tier) for i in range(nshards)])
+    deadline = ctx.t0 + TIME_BUDGET[ctx.tier]
+    reports = ctx.pmap(_shard, [(i, nshards, ctx.seed, ctx.tier, deadline) for i in range(nshards)])
     rep = ctx.merge_reports(reports)
     rep.rule = RULE
     rep.exhaustive = False
@@ -559,3 +562,64 @@ def replay(ctx: Ctx, case: Dict[str, Any]) -> List[Violation]:
     code = bytes.fromhex(case["code"])
     vs, _, _ = verdict(code, case.get("state"), recheck=True)
     return vs
+
+
+def _same(vs: List[Violation], key: str) -> Optional[Violation]:
+    for v in vs:
+        if v.key() == key:
+            return v
+    return None
+
+
+def shrink(ctx: Ctx, v: Violation) -> Violation:
+    """Field-wise simplification keeping the fingerprint: drop the state when it is irrelevant, zero operand
+    bytes, zero registers.  Bounded (a few hundred verdict evaluations at most, <= 60 s)."""
+    key = v.key()
+    t0 = time.time()
+    best = v
+    case = dict(v.case)
+
+    def attempt(code: bytes, state: Optional[Dict[str, Any]]) -> Optional[Violation]:
+        if time.time() - t0 > 60:
+            return None
+        r = TP.tokens(code + G.NOP_PAD)
+        if r is None or r[1] != len(code):
+            return None
+        vs, _, _ = verdict(code, state, recheck=True)
+        return _same(vs, key)
+
+    code = bytes.fromhex(case["code"])
+    state = case.get("state")
+    if v.subcheck != "behaviour":
+        got = attempt(code, None)
+        if got is not None:
+            best, state = got, None
+    start = 2 if code[0] in G.PRE_OPCODES else 1
+    for i in range(start, len(code)):
+        for cand in (0x00, 0x01, 0x10):
+            if code[i] == cand:
+                break
+            trial = code[:i] + bytes([cand]) + code[i + 1:]
+            got = attempt(trial, state)
+            if got is not None:
+                best, code = got, trial
+                break
+    if state is not None:
+        state = {**state, "regs": dict(state["regs"]), "imem": [list(x) for x in state["imem"]]}
+        for r in list(state["regs"]):
+            if state["regs"][r] == 0:
+                continue
+            trial_state = {**state, "regs": {**state["regs"], r: 0}}
+            got = attempt(code, trial_state)
+            if got is not None:
+                best, state = got, trial_state
+        for j in range(len(state["imem"])):
+            if state["imem"][j][1] == 0:
+                continue
+            im = [list(x) for x in state["imem"]]
+            im[j][1] = 0
+            trial_state = {**state, "imem": im}
+            got = attempt(code, trial_state)
+            if got is not None:
+                best, state = got, trial_state
+    return best
